@@ -100,7 +100,14 @@ FaultClauses(T) ==
      ELSE IF T.fault.kind = "raise" THEN (IF o.status = "injected" \/ (~r.ok /\ ErrMatches(o.status, r.err)) THEN {} ELSE {"fault-status"})
      ELSE (IF o.status = "eof" \/ (~r.ok /\ ErrMatches(o.status, r.err)) THEN {} ELSE {"fault-status"})
 
+\* C18: the class is extended in batches; after every commit its layout is the layout of the fields it has then
+CommitClauses(T) ==
+  LET Pre(n) == [T.type EXCEPT !.fields = SubSeq(T.type.fields, 1, n)] IN
+  (IF \A k \in 1..Len(T.cuts) : T.layouts[k] = LayoutObs(Pre(T.cuts[k]), T.mode) THEN {} ELSE {"stale-layout"})
+  \cup (IF T.compiled = (T.req_compiled /\ Compilable(T.type)) THEN {} ELSE {"compilable"})
+
 Verdict(T) == CASE T.kind = "parse" -> ParseClauses(T)
+                [] T.kind = "commits" -> CommitClauses(T)
                 [] T.kind = "value" -> ValueClauses(T)
                 [] T.kind = "load"  -> LoadClauses(T)
                 [] T.kind = "fault" -> FaultClauses(T)
